@@ -574,6 +574,10 @@ let check_pair rel (a : qobs) (b : qobs) =
       let sa = a.o.(9) and sb = b.o.(9) in
       if not (is_bad sa || is_bad sb) && eflag sa = "|0" && eflag sb = "|0" then begin
         nontrivial "C04";
+        (* how many pairs meet the premise of C04_sql_text_independent_of_values (Spec/SameKind.sk_e) on the implementation's trees *)
+        (match tree_of_parse pa, tree_of_parse pb with
+         | Some ta, Some tb -> if sk_e (parse_tree ta) (parse_tree tb) then bump "c04d.sk_e"
+         | _ -> ());
         if xtext sa <> xtext sb then begin
           let cls = if contains a.q "\"*\"" || contains b.q "\"*\"" then [("class", "K6")] else [] in
           fail "C04" "sql-text-depends-on-values" input ([("sql_a", (match xtext sa with Some s -> s | None -> "")); ("sql_b", (match xtext sb with Some s -> s | None -> ""))] @ cls)
